@@ -156,24 +156,27 @@ class table_O_S_2f_2(DefaultTable.DefaultTable):
                 self.version,
             )
         self.panose = sstruct.pack(panoseFormat, self.panose)
-        if self.version == 0:
-            data = sstruct.pack(OS2_format_0, self)
-        elif self.version == 1:
-            data = sstruct.pack(OS2_format_1, self)
-        elif self.version in (2, 3, 4):
-            data = sstruct.pack(OS2_format_2, self)
-        elif self.version == 5:
-            d = self.__dict__.copy()
-            d["usLowerOpticalPointSize"] = round(self.usLowerOpticalPointSize * 20)
-            d["usUpperOpticalPointSize"] = round(self.usUpperOpticalPointSize * 20)
-            data = sstruct.pack(OS2_format_5, d)
-        else:
-            from fontTools import ttLib
+        try:
+            if self.version == 0:
+                data = sstruct.pack(OS2_format_0, self)
+            elif self.version == 1:
+                data = sstruct.pack(OS2_format_1, self)
+            elif self.version in (2, 3, 4):
+                data = sstruct.pack(OS2_format_2, self)
+            elif self.version == 5:
+                d = self.__dict__.copy()
+                d["usLowerOpticalPointSize"] = round(self.usLowerOpticalPointSize * 20)
+                d["usUpperOpticalPointSize"] = round(self.usUpperOpticalPointSize * 20)
+                data = sstruct.pack(OS2_format_5, d)
+            else:
+                from fontTools import ttLib
 
-            raise ttLib.TTLibError(
-                "unknown format for OS/2 table: version %s" % self.version
-            )
-        self.panose = panose
+                raise ttLib.TTLibError(
+                    "unknown format for OS/2 table: version %s" % self.version
+                )
+        finally:
+            # restore the Panose object also when packing fails
+            self.panose = panose
         return data
 
     def toXML(self, writer, ttFont):
